@@ -118,7 +118,33 @@ def openErrT (o : Open) : Transcript :=
   | .ctxEnded a => ⟨[.aborted a], []⟩
   | .ok => endT
 
+/-! ### The single response of a method without server streaming
+
+The client is given the response only together with an OK status: if the handler goes on to return an
+error after it sent its response, the `RecvMsg` that would have delivered the response returns that
+error instead.  Both runs are the streaming run `go` (the response meets the client's `RecvMsg` at the
+rendezvous) with the client transcript rewritten accordingly (`hold`): under the rendezvous discipline
+the handler runs on to its return before the client's next op anyway, so only the RESULT of that
+`RecvMsg` differs, not its position. -/
+
+def holdEv (st : Ev) : Ev → Ev
+  | .msg _ => st
+  | e => e
+
+/-- `st` = the terminal event the handler's return value gives. -/
+def hold (single : Bool) (fin : Fin) (st : Ev) (t : Transcript) : Transcript :=
+  if single && fin != .ok then { t with client := t.client.map (holdEv st) } else t
+
 namespace Wrap
+
+/-- Which shapes hold the response back until the status is known.
+* unary (Invoke, and through NewStream by `adaptUnaryToStream`): the generated handler returns
+  `(nil, err)`, so no response is sent at all when the method returns an error;
+* client streaming: `clientStream.RecvMsg` with `singleResponse` set by `NewStream` (`awaitStatus`). -/
+def holds (c : Cfg) : Shape → Bool
+  | .unary | .unaryS => true
+  | .cstream => c.holdResponse
+  | .sstream | .bidi => false
 
 /-- Opening a call of the given shape on the wrapped TestApi server (live context: the scripts place
 cancel / deadline themselves). -/
@@ -132,7 +158,8 @@ handler sees a clone of the outgoing metadata), then the joint run over a fresh 
 def runCfg (c : Cfg) (shape : Shape) (out : MD) (ss : List SOp) (fin : Fin) (cs : List COp)
     (reuse : Bool := false) : Transcript :=
   match «open» shape with
-  | .ok => sev (.incoming (cloneMD out)) (go (impl c) fin reuse {} false (.running ss) (clientOps shape cs))
+  | .ok => sev (.incoming (cloneMD out))
+      (hold (holds c shape) fin (canon fin) (go (impl c) fin reuse {} false (.running ss) (clientOps shape cs)))
   | o => openErrT o
 
 def run (shape : Shape) (out : MD) (ss : List SOp) (fin : Fin) (cs : List COp) (reuse : Bool := false) :
@@ -142,10 +169,20 @@ end Wrap
 
 namespace GrpcRef
 
+/-- grpc-go's client: "special handling for non-server-stream rpcs" — after the response `RecvMsg` reads
+on to the status and returns it when it is not OK. -/
+def holds : Shape → Bool
+  | .sstream | .bidi => false
+  | _ => true
+
+/-- The status as the client reads it from the trailers frame. -/
+def statusEv (fin : Fin) : Ev := .fin (wireStatus fin).1 (wireStatus fin).2
+
 /-- The same scripted call over a real gRPC connection to the same server. -/
 def run (shape : Shape) (out : MD) (ss : List SOp) (fin : Fin) (cs : List COp) (reuse : Bool := false) :
     Transcript :=
-  sev (.incoming out) (go impl fin reuse {} false (.running ss) (clientOps shape cs))
+  sev (.incoming out)
+    (hold (holds shape) fin (statusEv fin) (go impl fin reuse {} false (.running ss) (clientOps shape cs)))
 
 end GrpcRef
 end ScVerif.C13
